@@ -64,7 +64,7 @@ func negTv(t tv) tv {
 var c05Ops = []string{"=", "!=", "<", "<=", ">", ">="}
 
 func c05Pool() []lib.Val {
-	return append(append([]lib.Val{}, lib.SystemPool()...), lib.ElementPool()...)
+	return append(append(append([]lib.Val{}, lib.SystemPool()...), lib.ElementPool()...), lib.OrderingExtras()...)
 }
 
 // c05Items is the collection item alphabet: two collections can differ at every single position.
